@@ -493,7 +493,7 @@ impl Runner {
                 _ => continue,
             };
             if out != orig_outs[i] {
-                self.violations.push((prog, vec!["C20"], start + i, format!("with eviction policy random (64 MiB, not reached) line {} of the program answers [{}], with policy none [{}]", i, &out[..out.len().min(200)], &orig_outs[i][..orig_outs[i].len().min(200)])));
+                self.violations.push((prog, vec!["C20", "C01"], start + i, format!("with eviction policy random (64 MiB, not reached) line {} of the program answers [{}], with policy none [{}]", i, &out[..out.len().min(200)], &orig_outs[i][..orig_outs[i].len().min(200)])));
                 break;
             }
         }
